@@ -23,7 +23,7 @@ MANIFEST = {
     "note": "Modelled not verified: decimal.Decimal (precision 28, half-even); the signing inside create_signed_tx is C05's (here: solved iff the key was supplied).",
     "technique": "Lean 4 proof (induction/omega over an executable model) + differential correspondence model vs implementation",
 }
-RULE = ("ops split/distribute/sat2btc/btc2sat/sat2mbtc/mbtc2sat/validate_unspents/validate_unspents_h/recfee_n/recfee/ctx/csigned/txhist/txhist2; "
+RULE = ("ops split/distribute/sat2btc/btc2sat/sat2mbtc/mbtc2sat/validate_unspents/validate_unspents_h (also after the same transaction validated with faithful records: faithful_then)/recfee_n/recfee/ctx/csigned/txhist/txhist2; "
         "boundary corpus (every remainder class for 1..12 split outputs, both error thresholds, sizes around every started thousand of bytes, "
         "coinbase / None / wrong-count unspents, db answering with another hash) + seeded random; distinct = distinct op line; "
         "trivial = split pool absent")
@@ -72,6 +72,9 @@ def impl(op: str) -> str:
     k = a[0]
     if k == "services_then":
         _exercise_services()
+        return impl(op.split(" ", 1)[1])
+    if k == "faithful_then":
+        _faithful_first(a[1:])
         return impl(op.split(" ", 1)[1])
     try:
         if k == "split":
@@ -170,6 +173,27 @@ def _src_tx(outs):
     if key not in _SRC_CACHE:
         _SRC_CACHE[key] = Tx(1, [Tx.TxIn(b"\x07" * 32, len(outs))], [Tx.TxOut(v, s) for v, s in outs])
     return _SRC_CACHE[key]
+
+
+def _faithful_first(a):
+    """history prefix `faithful_then validate_unspents[_h] …`: the SAME transaction (same inputs and outputs, hence the same id)
+    is validated in this process with the records the database dictates, before the operation itself runs with the records
+    it names; a verdict must not be remembered under an identity that leaves the recorded unspents out"""
+    try:
+        ins = [] if a[1] == "~" else [(unhx(x.split(":")[0]), int(x.split(":")[1])) for x in a[1].split(",")]
+        if a[0] == "validate_unspents":
+            db = {}
+            for e in ([] if a[3] == "~" else a[3].split("|")):
+                h, outs = e.split("=")
+                db[unhx(h)] = [] if outs == "" else [x for x in outs.split(";")]
+            us = ",".join(db[h][i] for h, i in ins)
+            _validate(a[1], us or "~", a[3])
+        else:
+            db = _parse_dbh(a[4])
+            us = ",".join("%d:%s" % (db[h][1][i][0], hx(db[h][1][i][1])) for h, i in ins)
+            _validate_h(a[1], us or "~", a[3], a[4])
+    except Exception:  # noqa: BLE001   (an input the database cannot answer for: no faithful version exists)
+        pass
 
 
 def _validate(ins_s, us_s, db_s):
@@ -390,7 +414,7 @@ def oracle(op: str, out: str):
     """the property evaluated on the implementation alone"""
     a = op.split(" ")
     k = a[0]
-    if k == "services_then":
+    if k in ("services_then", "faithful_then"):
         return oracle(op.split(" ", 1)[1], out)
     if k == "split" and out.startswith("ok"):
         t, c = int(a[1]), int(a[2])
@@ -714,6 +738,14 @@ def gen(ctx, emit):
         mode = rng.randrange(8)
         pos = rng.randrange(len(ins))
         db = dict(srcs)
+        if mode in (1, 2, 4, 6):
+            # history: the same transaction (same id: neither recorded unspents nor the database are part of it) validates
+            # with faithful records FIRST, in this process; the verdict on the tampered records must not remember that
+            emit("validate_unspents %s %s %s" % (
+                show_list(ins, lambda t: "%s:%d" % (hx(t[0]), t[1])),
+                show_list(us, lambda t: "%d:%s" % (t[0], hx(t[1]))),
+                "|".join("%s=%s" % (hx(h), ";".join("%d:%s" % (v, hx(s)) for v, s in outs)) for h, outs in db.items()) or "~"),
+                "faithful-then-tampered")
         if mode == 1:
             us[pos] = (us[pos][0] + rng.choice([-1, 1]), us[pos][1])
         elif mode == 2:
@@ -727,7 +759,7 @@ def gen(ctx, emit):
         elif mode == 6 and len(us) > 1:
             j = (pos + 1) % len(us)
             us[pos], us[j] = us[j], us[pos]
-        emit("validate_unspents %s %s %s" % (
+        emit("%svalidate_unspents %s %s %s" % ("faithful_then " if mode in (1, 2, 6) and rng.random() < 0.5 else "",
             show_list(ins, lambda t: "%s:%d" % (hx(t[0]), t[1])),
             show_list(us, lambda t: "%d:%s" % (t[0], hx(t[1]))),
             "|".join("%s=%s" % (hx(h), ";".join("%d:%s" % (v, hx(s)) for v, s in outs)) for h, outs in db.items()) or "~"))
@@ -869,6 +901,14 @@ def _gen2(ctx, emit):
             h = rng.choice(hs); idx = rng.randrange(len(srcs[h]))
             ins.append((h, idx)); us.append(srcs[h][idx])
         db = {h: (h, outs) for h, outs in srcs.items()}
+        outs_v = [rng.randrange(1, 1000) for _ in range(rng.randint(1, 2))]
+        if rng.random() < 0.5:
+            # the faithful records first (same transaction id as the tampered ones that may follow): see the first generator
+            emit("validate_unspents_h %s %s %s %s" % (
+                show_list(ins, lambda t: "%s:%d" % (hx(t[0]), t[1])),
+                show_list(us, lambda t: "%d:%s" % (t[0], hx(t[1]))), show_list(outs_v),
+                "|".join("%s=%s=%s" % (hx(k), hx(h), ";".join("%d:%s" % (v, hx(s_)) for v, s_ in outs)) for k, (h, outs) in db.items()) or "~"),
+                "faithful-then-tampered")
         for _m in range(rng.choice([0, 1, 1, 1, 2])):
             mode, pos = rng.randrange(8), rng.randrange(len(ins))
             h = ins[pos][0]
@@ -890,8 +930,8 @@ def _gen2(ctx, emit):
             # mode 7: nothing
         if rng.random() < 0.05:
             ins, us = [(ZERO32, 0xFFFFFFFF)], us[:1]
-        emit("validate_unspents_h %s %s %s %s" % (
+        emit("%svalidate_unspents_h %s %s %s %s" % ("faithful_then " if rng.random() < 0.3 else "",
             show_list(ins, lambda t: "%s:%d" % (hx(t[0]), t[1])),
             show_list(us, lambda t: "%d:%s" % (t[0], hx(t[1]))),
-            show_list(rng.randrange(1, 1000) for _ in range(rng.randint(1, 2))),
+            show_list(outs_v),
             "|".join("%s=%s=%s" % (hx(k), hx(h), ";".join("%d:%s" % (v, hx(s_)) for v, s_ in outs)) for k, (h, outs) in db.items()) or "~"))
